@@ -41,6 +41,12 @@ package rules
 // R-C04-4 follows the ticket into an index helper (`lb.pick(ticket)`) and demands that the counter
 // and every value up to the modulo stay 64 bits wide; R-C04-6 decides len(<receiver>.<list>) in a
 // method of the common part at the call sites of that method.
+// Third robustness iteration: named results with bare return and nil returns inside inlined helpers
+// (chooseByHash) in the nil-only-for-empty check; the pool's atomic.Value inside a slot struct of
+// its own (balancerSlot{load, store}); NewLoadBalancer delegating the dispatch ((*LoadBalanceSpec)
+// .newBalancer); publishing helpers summarised (setServers(list) / useStaticServers()); a stored
+// balancer that is a setter's parameter judged at the setter's call sites; the registry behind an
+// unexported interface; loaders that get the balancer from another loader.
 //
 // Tested on the tree this was developed against (scratch worktree @ ce8b88e): exit 1 with
 // exactly one violation,
@@ -123,21 +129,23 @@ type c04Impl struct {
 }
 
 type c04Info struct {
-	iface       *types.Named
-	ifaceT      *types.Interface
-	choose      *types.Func // interface method
-	server      *types.Named
-	listType    types.Type
-	impls       []*c04Impl
-	byPolicy    map[string]*c04Impl
-	byMethod    map[*types.Func]*c04Impl
-	owner       map[*types.Var]string // field -> "pkg/rel.Struct"
-	roles       *c04Roles
-	newLB       *types.Func           // NewLoadBalancer
-	pool        *types.Struct         // ServerPool
-	policyImpls map[string][]*c04Impl // every implementation a policy can yield
-	cases       []c04PolicyCase       // case clauses of NewLoadBalancer's policy switch
-	outside     *c04TypeSet           // returns of NewLoadBalancer outside the switch (nil = none)
+	iface        *types.Named
+	ifaceT       *types.Interface
+	choose       *types.Func // interface method
+	server       *types.Named
+	listType     types.Type
+	impls        []*c04Impl
+	byPolicy     map[string]*c04Impl
+	byMethod     map[*types.Func]*c04Impl
+	owner        map[*types.Var]string // field -> "pkg/rel.Struct"
+	roles        *c04Roles
+	newLB        *types.Func           // NewLoadBalancer
+	dispatch     map[*types.Func]bool  // NewLoadBalancer and the function(s) it delegates the dispatch to
+	dispatchDecl *ast.FuncDecl         // the function that holds the policy switch / table
+	pool         *types.Struct         // ServerPool
+	policyImpls  map[string][]*c04Impl // every implementation a policy can yield
+	cases        []c04PolicyCase       // case clauses of NewLoadBalancer's policy switch
+	outside      *c04TypeSet           // returns of NewLoadBalancer outside the switch (nil = none)
 }
 
 func c04(c *core.Ctx) string {
@@ -288,7 +296,30 @@ func c04Resolve(c *core.Ctx) *c04Info {
 	}
 	npkg, nfd := c.Prog.FuncDecl(c04pkg, "", "NewLoadBalancer")
 	info.newLB, _ = npkg.TypesInfo.Defs[nfd.Name].(*types.Func)
+	info.dispatch = map[*types.Func]bool{info.newLB: true}
 	cases, outside, disp := c04PolicyCases(c, npkg, nfd)
+	// NewLoadBalancer may merely delegate: `return spec.newBalancer(servers)`
+	for hop := 0; disp == nil && hop < 2; hop++ {
+		var next *ast.FuncDecl
+		if len(nfd.Body.List) == 1 {
+			if rs, ok := nfd.Body.List[0].(*ast.ReturnStmt); ok && len(rs.Results) == 1 {
+				if call, ok := ast.Unparen(rs.Results[0]).(*ast.CallExpr); ok {
+					if fo, _ := c04Callee(npkg.TypesInfo, call).(*types.Func); fo != nil && fo.Pkg() == npkg.Types {
+						if d := declOf(npkg, fo); d != nil {
+							next = d
+							info.dispatch[fo] = true
+						}
+					}
+				}
+			}
+		}
+		if next == nil {
+			break
+		}
+		nfd = next
+		cases, outside, disp = c04PolicyCases(c, npkg, nfd)
+	}
+	info.dispatchDecl = nfd
 	if disp == nil {
 		c.Errorf("anchor: NewLoadBalancer has neither a switch over the policy nor a lookup in an immutable table of constructors")
 		return nil
@@ -1479,13 +1510,29 @@ func c04Choose(c *core.Ctx, info *c04Info) {
 				panics++
 				continue
 			}
-			if ex.Return == nil || len(ex.Return.Results) != 1 {
-				c.Undecide("R-C04-2", im.cons+"|nil only for an empty list", pos(c, ex.At), "bare return: cannot read the returned server")
+			var r ast.Expr
+			if in := ex.Ret(); in != nil && in != ex.Return && len(in.Results) == 1 {
+				// `return lb.chooseByHash(key)`: the value comes from the helper's own return
+				r = ast.Unparen(in.Results[0])
+			} else if ex.Return != nil && len(ex.Return.Results) == 1 {
+				r = ast.Unparen(ex.Return.Results[0])
+			} else if id := c04NamedResult(im.decl); id != nil && (ex.Return == nil || len(ex.Return.Results) == 0) {
+				r = id // bare return: the named result
+			}
+			if r == nil {
+				c.Undecide("R-C04-2", im.cons+"|nil only for an empty list", pos(c, ex.At), "bare return without a named result: cannot read the returned server")
 				okNil = false
 				break
 			}
-			r := ex.Return.Results[0]
-			if !f.Info.Types[r].IsNil() {
+			isNilRet := f.Info.Types[r].IsNil()
+			if id, isID := r.(*ast.Ident); isID && !isNilRet {
+				// a variable (named result, local): nil exactly where the engine knows it to be nil
+				// (zero value never assigned, or assigned nil)
+				if _, isVar := c04ObjOf(f.Info, id).(*types.Var); isVar && ex.State.Is(f.NilKey(id), flow.True) {
+					isNilRet = true
+				}
+			}
+			if !isNilRet {
 				elemRet++
 				continue
 			}
@@ -1852,25 +1899,9 @@ func c04FuncObj(pkg *packages.Package, fd *ast.FuncDecl) *types.Func {
 // R-C04-3 (publish before use): NewServerPool stores a balancer on every path
 
 func c04Published(c *core.Ctx, info *c04Info) {
-	sp := namedType(c, c04pkg, "ServerPool")
-	if sp == nil {
-		return
-	}
-	st, ok := sp.Underlying().(*types.Struct)
-	if !ok {
-		c.Errorf("anchor: ServerPool is not a struct")
-		return
-	}
-	var holder *types.Var
-	n := 0
-	for i := 0; i < st.NumFields(); i++ {
-		if st.Field(i).Type().String() == "sync/atomic.Value" {
-			holder = st.Field(i)
-			n++
-		}
-	}
-	if n != 1 {
-		c.Errorf("anchor: ServerPool has %d sync/atomic.Value fields, expected exactly 1 (the published balancer)", n)
+	holder := c04Holder(c)
+	if holder == nil {
+		c.Errorf("anchor: ServerPool does not hold exactly one sync/atomic.Value (the published balancer), directly or in a slot struct of its own")
 		return
 	}
 	pkg := c.Prog.Pkg(c04pkg)
